@@ -26,13 +26,15 @@ PROPERTIES = {
         "assumptions": A_COMMON + [
             "A6 Key's derived Hash/Eq obey vstd's HashMap key model (axiom_key_model)",
             "A7' the assumed contract of SectionsBuilder::process_blocks (itertools/closure code) and A7-input, the shape of the blocks the "
-            "reader delivers / of the trees handed to insert_from_iter (no Table nodes, only container kinds have children, finite); "
+            "reader delivers (no Div, no Header outside process_section, no Table in block()) / of the trees handed to insert_from_iter "
+            "(no Table nodes, only container kinds have children, finite); what a list item may start with is NOT assumed any more: it is "
+            "an obligation at the call `self.process_section(0..b.len(), b)` in block(), which fails on the unchanged tree (known finding); "
             "everything else of the former blanket assumption A7 (slot free at every primitive call) is now a proof obligation of "
             "SectionsBuilder::{new,process_section,section_block,block}, Graph::from_markdown and insert_from_iter/append_from_visitor; "
-            "one known finding (list-head overwrite)",
+            "two known findings (list-head overwrite; item head that section_block has no arm for), two defects repaired (aa1f5f1, ea464ca)",
             "T11 the NodeIter interface is declared with ghost members (size, node_s, child_s, next_s); that every implementor's "
             "next/child/node agree with a finite tree is assumed (for SquashIter this is the termination half of C17)",
-            "not covered: the Table arm of add_new_node_and and of SectionsBuilder::block (T9), GraphNodePointer navigation in model/node.rs",
+            "not covered: the Table arm of add_new_node_and and of SectionsBuilder::block (T9); GraphNodePointer::is_document is assumed to report the arena kind (it goes through NodeIter::node(), string code)",
         ],
     },
     "C04": {
